@@ -96,11 +96,42 @@ func (s *stepper) server(c srvCfg) *vgirpc.HttpServer {
 		return p.Data, nil
 	})
 	h := vgirpc.NewHttpServer(rpc)
-	h.SetMaxBodySize(int64(c.maxBody))
-	h.SetMaxRequestBytes(int64(c.maxReq))
-	h.SetMaxDecompressedBodySize(int64(c.maxDec))
+	// The three caps are independent settings: they are applied in a drawn order,
+	// and a request / decoded cap that is already the default (0) is sometimes not set at all.
+	setters := []func(){
+		func() { h.SetMaxBodySize(int64(c.maxBody)) }, // the default is 64 MB, not 0
+		func() {
+			if c.maxReq != 0 || s.rng.Intn(2) == 0 {
+				h.SetMaxRequestBytes(int64(c.maxReq))
+			}
+		},
+		func() {
+			if c.maxDec != 0 || s.rng.Intn(2) == 0 {
+				h.SetMaxDecompressedBodySize(int64(c.maxDec))
+			}
+		},
+	}
+	for _, i := range s.rng.Perm(len(setters)) {
+		setters[i]()
+	}
 	s.srv, s.cfg, s.haveSrv = h, c, true
 	return h
+}
+
+// order names how the caps stand to each other (diagnostics only).
+func (c srvCfg) order() string {
+	rel := func(a, b int) string {
+		switch {
+		case a <= 0 || b <= 0:
+			return "-"
+		case a < b:
+			return "<"
+		case a == b:
+			return "="
+		}
+		return ">"
+	}
+	return fmt.Sprintf("req%swire dec%sreq dec%swire", rel(c.maxReq, c.maxBody), rel(c.maxDec, c.maxReq), rel(c.maxDec, c.maxBody))
 }
 
 // ---------------------------------------------------------------- IPC bodies
@@ -713,8 +744,18 @@ func (s *stepper) sendHTTP(st replay.Step) (replay.Obs, error) {
 	s.ph = nil
 
 	obs := replay.Obs{"status": w.Code}
+	// the cap the response advertises to the client (0 = header absent)
+	adv := 0
+	if v := w.Header().Get("VGI-Max-Request-Bytes"); v != "" {
+		if n, err := strconv.Atoi(v); err == nil {
+			adv = n
+		} else {
+			adv = -1
+		}
+	}
+	obs["adv"] = adv
 	name := strconv.Itoa(w.Code)
-	note := fmt.Sprintf("cfg=%+v raw=%d %s", s.cfg, len(ph.wire), ph.desc)
+	note := fmt.Sprintf("cfg=%+v [%s] raw=%d chunked=%v %s", s.cfg, s.cfg.order(), len(ph.wire), ph.chunked, ph.desc)
 	if w.Code == 200 {
 		_, res, ok := vgirpc.ReadUnaryResult(w.Body.Bytes())
 		switch {
